@@ -289,7 +289,7 @@ def check(prop, tier, runs=None, workers=None, seed=None):
     for flavour, exe in exes.items():
         n_fl = total if flavour == meta.get("flavours", ["asan"])[0] \
             else max(total // 4, 1)
-        chunk = max(10, min(200, n_fl // (workers * 4) or 10))
+        chunk = max(1, min(200, n_fl // (workers * 4)))
         jobs = []
         with cf.ThreadPoolExecutor(max_workers=workers) as ex:
             s = 0
@@ -297,8 +297,6 @@ def check(prop, tier, runs=None, workers=None, seed=None):
                 c = min(chunk, n_fl - s)
                 jobs.append(ex.submit(run_batch, exe, prop, seed, s, c))
                 s += c
-            # determinism re-check of the first chunk, in parallel
-            det = ex.submit(run_batch, exe, prop, seed, 0, min(chunk, n_fl))
             for j in cf.as_completed(jobs):
                 start, results = j.result()
                 for r in results:
@@ -307,9 +305,8 @@ def check(prop, tier, runs=None, workers=None, seed=None):
                         harness_errors.append(r)
                         continue
                     agg["runs"] += 1
-                    if start == 0:
-                        first_chunk_hashes[(flavour, r.get("seed"))] = \
-                            r.get("hash")
+                    first_chunk_hashes[(flavour, r.get("seed"))] = \
+                        r.get("hash")
                     if r.get("nontrivial"):
                         agg["nontrivial"] += 1
                         if r.get("hash"):
@@ -334,7 +331,17 @@ def check(prop, tier, runs=None, workers=None, seed=None):
                 if time.time() - t_runs > budget_s:
                     for jj in jobs:
                         jj.cancel()
-            _, det_results = det.result()
+            # determinism re-check: the first runs again, after the batch (two
+            # processes must never execute the same seed at the same time:
+            # they would share a sim root)
+            ndet_runs = min(meta.get("det_runs", 64), n_fl)
+            dchunk = max(1, ndet_runs // workers)
+            djobs = [ex.submit(run_batch, exe, prop, seed, s0,
+                               min(dchunk, ndet_runs - s0))
+                     for s0 in range(0, ndet_runs, dchunk)]
+            det_results = []
+            for dj in djobs:
+                det_results.extend(dj.result()[1])
             ndet = 0
             for r in det_results:
                 key = (flavour, r.get("seed"))
@@ -382,7 +389,8 @@ def check(prop, tier, runs=None, workers=None, seed=None):
                 clause, len(lst), sd, flavour,
                 [v for v in r["violations"] if v["clause"] == clause][0]
                 ["detail"][:600]))
-            plan = gen_plan(exe, prop, sd)
+            rp = (r.get("replay_plans") or {}).get(clause)
+            plan = rp if rp else gen_plan(exe, prop, sd)
             res0 = run_plan(exe, plan)
             if clause not in clauses(res0):
                 log("  does not reproduce from its seed -> harness fault")
